@@ -280,6 +280,21 @@ def check(prog, rep, tier):
                         want = norm(("bin", "*", ("lst", (C(0),)), ("bin", "-", ("f", SELF, "_bucket_size", 0), ("call", ("g", "len"), (e.recv,), ()))))
                         ok2 = canon(a) == canon(want)
             okb = ok2
+    if not okb and len([x for x in cells if x[2]]) == 2:
+        # the other spelling: the bucket's own words, then the tail of a zero block of bucket_size words starting at len(bucket)
+        a_, b_ = [strip_epochs(x[1]) for x in cells if x[2]]
+        bsz = ("f", SELF, "_bucket_size", 0)
+
+        def words_of_bucket(v):
+            if v[0] == "phi":
+                return words_of_bucket(v[2]) and words_of_bucket(v[3])
+            if v[0] == "newb" and v[1] == "array" and len(v[3]) == 2 and v[3][0] == C("I"):
+                return v[3][1][0] == "it"
+            return v[0] == "it"  # a bucket that already is an array
+        zeros_ok = b_[0] == "slice" and b_[3] == C(None) and b_[4] in (C(None), C(1)) and b_[2][0] == "call" and b_[2][1] == ("g", "len") \
+            and b_[1][0] == "nary" and b_[1][1] == "*" and bsz in b_[1][2] \
+            and any(x[0] == "newb" and x[1] == "array" and len(x[3]) == 2 and x[3][0] == C("I") and x[3][1] == ("lst", (C(0),)) for x in b_[1][2])
+        okb = words_of_bucket(a_) and zeros_ok
     if okb:
         rep.ok("C06.cuckoo-buckets", "CuckooFilter.export: array('I', bucket) padded with 0 to bucket_size")
     else:
